@@ -56,6 +56,9 @@ func schedCountOnly(on bool) {
 func schedYields() int64 { return sched.yields }
 
 //go:norace
+func schedHeldBack() int64 { return sched.heldBack }
+
+//go:norace
 func schedStats() (yields, nswitch, overlap, inSerial int64, swHash uint64) {
 	return sched.yields, sched.nswitch, sched.overlap, sched.inSerial, sched.swHash
 }
